@@ -799,6 +799,27 @@ func (e *EvalEnv) call(x *ast.CallExpr) (Val, error) {
 		}
 	}
 	if sel, ok := x.Fun.(*ast.SelectorExpr); ok {
+		// pkg.F(args): a function of an imported package (by the import's local name)
+		if id, ok := sel.X.(*ast.Ident); ok && e.Fn != nil && e.Fn.Pkg != nil {
+			if _, isVar := e.Vars[id.Name]; !isVar {
+				for _, imp := range e.Fn.Pkg.Pkg.Imports() {
+					local := imp.Name()
+					if f := e.X.P.FileImportName(e.Fn, imp); f != "" {
+						local = f
+					}
+					if local == id.Name {
+						if sp := e.X.P.SSA.Package(imp); sp != nil {
+							if fn := sp.Func(sel.Sel.Name); fn != nil {
+								if res, ok, err := e.callModel(fn, x.Args); ok || err != nil {
+									return res, err
+								}
+								return e.callGo(fn, nil, x.Args)
+							}
+						}
+					}
+				}
+			}
+		}
 		// method call on a value: the real (pure) Go method is executed symbolically
 		if recv, err := e.Eval(sel.X); err == nil {
 			var rt types.Type
@@ -1441,4 +1462,25 @@ func (x *Exec) urem(a, b Term) Term {
 		x.C.trusted["% by a symbolic divisor is abstracted to an uninterpreted function with r < b and r <= a (opt abstractmod)"] = true
 	}
 	return t
+}
+
+// callModel: a contract call to a function that has a model (hash functions, ...) is the model applied to the arguments.
+func (e *EvalEnv) callModel(fn *ssa.Function, argExprs []ast.Expr) (Val, bool, error) {
+	var args []Val
+	for _, a := range argExprs {
+		v, err := e.Eval(a)
+		if err != nil {
+			return nil, true, err
+		}
+		args = append(args, v)
+	}
+	st := e.state().Clone()
+	res, ok, err := e.X.model(&Frame{Fn: fn, Env: map[ssa.Value]Val{}}, st, fn, args, nil)
+	if !ok || err != nil {
+		return nil, ok, err
+	}
+	if len(res) == 1 {
+		return res[0], true, nil
+	}
+	return TupleV(res), true, nil
 }
